@@ -70,6 +70,20 @@ def gen(seed, tier):
             t += r.choice([500, 29500, 31000, 45000, 59000, 120000])
             segs.append(seg(t, [mk(r.choice([4, 5, 11, 17, 18, 20, 21]), r.choice(used))]))
         cases.append(H("C17-h%d" % i, o, segs))
+    # neighbours across a block boundary heard one after the other, in descending as well as ascending order, in one reader run
+    # and in separate ones: the code of a row never depends on which address was looked up before it
+    for i in range(30 if tier == "quick" else 300):
+        lines = []
+        for _ in range(r.randint(2, 5)):
+            f, n, c = r.choice(bl)
+            hi = f + r.randrange(min(n, 1024))
+            lo = (f - 1 - r.randrange(1023)) & 0xFFFFFF or 1
+            top = (f + n - 1 - r.randrange(min(n, 1024)))
+            above = (f + n + r.randrange(1023)) & 0xFFFFFF or 1
+            pair = r.choice([[hi, lo], [lo, hi], [above, top], [top, above], [hi, lo, hi], [above, top, lo]])
+            lines += [mk(r.choice([4, 5, 11, 17, 18, 20]), a) for a in pair]
+        o = {"U": 1} if i % 2 else {}
+        cases.append(H("C17-d%d" % i, o, [seg(0, lines)] if i % 3 else [seg(0, [l]) for l in lines]))
     # the code as SHOWN in the table row (kind D renders rows): every block is visited, the blocks with a five-letter code
     # (ICAO1 / ICAO2) and unallocated addresses in every case
     long_blocks = [b for b in bl if len(b[2]) > 2]
